@@ -259,8 +259,8 @@ Fixpoint has_dup_place (l : list sent) : bool :=
    class 2: a room never seen before whose administrator entries do not justify one another in
             date order from the creator's own entries (prepare_new_room asks the fully parsed
             candidate, which already contains the entry that is being judged)
-   class 3: a group new to the peer carries a user-admin entry whose author is not an administrator
-            (prepare_new_auth never looks at the user-admin entries of a new group)
+   class 3: (repaired by 85b1827: prepare_new_auth now checks the user-admin entries of a group new
+            to the peer against the room's administrators; no longer a class)
    class 4: a list of the candidate holds two rows with the same id (only the first is compared
             with the stored row; the others count as "already known" and are not checked) *)
 Definition known_C07 (c : c07case) : list Z :=
@@ -271,11 +271,6 @@ Definition known_C07 (c : c07case) : list Z :=
   let news := new_entries olds (sents_of cand) in
   (if existsb (fun x => needs_place olds x && negb (placed (zn (rmn_id cand)) (evs_of (of_kind 1 res)) edges x)) news then [1] else []) ++
   (if is_fresh old && negb (admins_ok true (rmn_cdate cand) [] (sents_of cand)) then [2] else []) ++
-  (if negb (is_fresh old) &&
-      existsb (fun x => Z.eqb (s_kind x) 3 &&
-                        negb (existsb (fun o => Z.eqb (s_kind o) 5 && Z.eqb (s_id o) (s_g x)) olds) &&
-                        negb (admin_at (evs_of (of_kind 1 res)) (Z.to_N (s_author x)) (s_date x))) news
-   then [3] else []) ++
   (if has_dup_place (sents_of cand) then [4] else []).
 
 Definition eval_C07 (c : c07case) (obs : list Z) : list Z :=
